@@ -70,19 +70,22 @@ class Poisson(DiscreteRandomVariable):
         self.mu = mu
 
     def cdf(self, x):
-        # The terms mu**j/j! are built incrementally; once they have underflowed
-        # to 0 (which needs j > mu) no later term can contribute.
-        total, term, j = 0, 1, 0
-        while j <= x and (term > 0 or j <= self.mu):
+        # Once the terms have underflowed to 0 past the mean no later term can
+        # contribute. (exp(-mu) times a separately accumulated sum would be 0*inf
+        # for a large mean.)
+        total, j = 0, 0
+        while j <= x:
+            term = self.pmf(j)
+            if term == 0 and j > self.mu:
+                break
             total += term
             j += 1
-            term = term * self.mu / j
-        return math.exp(-self.mu) * total
+        return min(total, 1)
 
     def pmf(self, x):
         if x < 0:
             return 0
-        if x > 100:
+        if x > 100 or self.mu > 100:
             # mu**x and x! are astronomically large here: use logarithms.
             return math.exp(x*math.log(self.mu) - self.mu - math.lgamma(x+1))
         return self.mu**x * math.exp(-self.mu) / factorial(x)
